@@ -295,7 +295,7 @@ Fixpoint drv_cass (fl : bool) (c : cls) : option str :=
   | CApp n subs _ => go n subs
   | CUnrec n subs _ => go n subs
   | CUdt _ _ _ subs => go (lit "UserType") subs
-  | CVec n _ _ => Some (pre n)
+  | CVec n _ size => match size with CInt _ => Some (pre n) | _ => None end   (* otherwise the name embeds a class repr: not modelled *)
   end.
 
 Definition quote1 (s : str) : str := lit "'" ++ s ++ lit "'".
